@@ -88,6 +88,7 @@ func rulesC14(c *Ctx) {
 	c.c14Amounts()
 	c.c14Prefixes()
 	c.c14Keys()
+	c.c14DecoderCaps()
 }
 
 // fieldsOfWith gives the field values of a struct built by a composite literal / field stores. When the
@@ -592,6 +593,47 @@ func (c *Ctx) c14Prefixes() {
 		}
 		R.Check("R2", v.dec, "decoder accepts padded and raw base64url", c.P.Pos(dec.Pos()), pad && raw, "both base64url variants are tried", "")
 	}
+}
+
+// c14DecoderCaps: R2 (clause). The CBOR decoder accepts whatever the encoder emits: when a decoding mode is
+// configured in the token package, its size limits (array elements, map pairs, nesting) are not set below the
+// library defaults - the encoder has no such cap, so a lower limit makes valid tokens undecodable.
+func (c *Ctx) c14DecoderCaps() {
+	R := c.R
+	defaults := map[string]int64{"MaxArrayElements": 131072, "MaxMapPairs": 131072, "MaxNestedLevels": 32}
+	n := 0
+	ok, why := true, ""
+	for _, f := range c.P.Funcs {
+		if f.Pkg == nil || c.P.Rel(f.Pkg.Pkg.Path()) != "cashu" {
+			continue
+		}
+		for _, b := range f.Blocks {
+			for _, in := range b.Instrs {
+				st, isSt := in.(*ssa.Store)
+				if !isSt {
+					continue
+				}
+				fa, isFA := st.Addr.(*ssa.FieldAddr)
+				if !isFA || !strings.HasSuffix(fa.X.Type().String(), "cbor/v2.DecOptions") {
+					continue
+				}
+				def, limited := defaults[fieldName(fa)]
+				if !limited {
+					continue
+				}
+				n++
+				if k, isC := constInt(st.Val); !isC || (k != 0 && k < def) {
+					ok = false
+					why = fmt.Sprintf("%s is set to %s at %s (library default %d)", fieldName(fa), c.P.OriginsOf(f).Of(st.Val).String(), c.P.InstrPos(st), def)
+				}
+			}
+		}
+	}
+	if n == 0 {
+		R.Trivial("R2", "cashu", "CBOR decoder size limits", "cashu/cashu.go", "no decoding mode with size limits is configured (library defaults)")
+		return
+	}
+	R.Check("R2", "cashu", "CBOR decoder size limits", "cashu/cashu.go", ok, "a configured CBOR decoding mode does not cap arrays, maps or nesting below the library defaults", why)
 }
 
 func (c *Ctx) c14Keys() {
